@@ -278,8 +278,11 @@ class Parser:
 
     def parse_number(self, token: Token) -> int:
         """Return the value of a NUMBER or INTEGER token, a 32 bit integer in pest."""
-        if len(token.value.lstrip("-").lstrip("0")) <= 10:  # noqa: PLR2004
-            value = int(token.value)
+        digits = token.value.lstrip("-").lstrip("0")
+        if len(digits) <= 10:  # noqa: PLR2004
+            value = int(digits or "0")
+            if token.value.startswith("-"):
+                value = -value
             if -0x80000000 <= value <= 0xFFFFFFFF:  # noqa: PLR2004
                 return value
         raise PestGrammarSyntaxError("number is too big", token=token)
